@@ -40,14 +40,32 @@ def mk_interp(repo, log, solver_calls):
     return Interp(repo, libs=libs, intercept={'tensor_train.eye': i_eye, 'utils.progress': i_progress, 'solvers.sle.als': i_als, 'solvers.sle.mals': i_mals})
 
 
+CHOICES = []          # outcomes assumed for the undecidable tests of the path being explored (see all_paths)
+
+
 def call(repo, qual, log, solver_calls, *args, **kwargs):
     it = mk_interp(repo, log, solver_calls)
+    it.choices = list(CHOICES)
     fn = repo.fn(qual)
     it.stack.append(Frame(fn, repo.modules[fn.mod], {}))
-    try:
-        return it.call_fn(fn, list(args), kwargs)
-    except Fork:
-        raise AnalysisError(f'{qual}: a test could not be decided: {it.fork_log[-1]}')
+    return it.call_fn(fn, list(args), kwargs)          # Fork propagates to all_paths
+
+
+def all_paths(body, *args):
+    """run body(*args) once for every combination of outcomes of the tests the domain cannot decide (tolerance comparisons of symbolic step sizes, ...)"""
+    global CHOICES
+    stack, n = [[]], 0
+    while stack:
+        CHOICES = stack.pop()
+        n += 1
+        if n > 256:
+            raise AnalysisError('more than 256 paths through an integrator')
+        try:
+            body(*args)
+        except Fork:
+            stack.append(CHOICES + [False])
+            stack.append(CHOICES + [True])
+    CHOICES = []
 
 
 def fin(v, normalize):
@@ -118,92 +136,98 @@ def check(repo, tier):
 
     # ---------------------------------------------------------------- explicit Euler
     for nz in normals:
-        log, A, x0, g = new_world()
-        calls = []
-        scen = f'normalize={nz}'
-        try:
-            sol = call(repo, f'{MOD}.explicit_euler', log, calls, A, x0, list(h), normalize=nz, progress=False)
-        except Raised as r:
-            raise AnalysisError(f'explicit_euler raised {r} at {r.where}')
-        if traj_checks('explicit_euler', sol, x0, [A, x0], 3, scen):
-            I = alg.OpT({0: sp.Integer(1)}, log)
-            for i in range(3):
-                want = fin((I + h[i] * A).dot(sol[i]), nz)
-                ok = want.same(sol[i + 1])
-                run.oblige('D1', ('explicit_euler', scen, i), ok, sample={'scheme': 'explicit_euler', 'scenario': scen, 'step': i, 'got': describe(sol[i + 1])[:200], 'verdict': 'held' if ok else 'VIOLATED'} if i == 1 and nz == 0 else None)
-                if not ok:
-                    run.add(finding('explicit_euler', 'D1 recurrence', f'{scen}, step {i}: appended state is {describe(sol[i + 1])[:240]} but (I + h_i A) x_i (normalised if requested) is {describe(want)[:240]}'))
+        def _scenario(nz):
+            log, A, x0, g = new_world()
+            calls = []
+            scen = f'normalize={nz}'
+            try:
+                sol = call(repo, f'{MOD}.explicit_euler', log, calls, A, x0, list(h), normalize=nz, progress=False)
+            except Raised as r:
+                raise AnalysisError(f'explicit_euler raised {r} at {r.where}')
+            if traj_checks('explicit_euler', sol, x0, [A, x0], 3, scen):
+                I = alg.OpT({0: sp.Integer(1)}, log)
+                for i in range(3):
+                    want = fin((I + h[i] * A).dot(sol[i]), nz)
+                    ok = want.same(sol[i + 1])
+                    run.oblige('D1', ('explicit_euler', scen, i), ok, sample={'scheme': 'explicit_euler', 'scenario': scen, 'step': i, 'got': describe(sol[i + 1])[:200], 'verdict': 'held' if ok else 'VIOLATED'} if i == 1 and nz == 0 else None)
+                    if not ok:
+                        run.add(finding('explicit_euler', 'D1 recurrence', f'{scen}, step {i}: appended state is {describe(sol[i + 1])[:240]} but (I + h_i A) x_i (normalised if requested) is {describe(want)[:240]}'))
+        all_paths(_scenario, nz)
     # ---------------------------------------------------------------- implicit Euler / trapezoidal
     for fname in ('implicit_euler', 'trapezoidal_rule'):
         for nz, tts in itertools.product(normals, ('als', 'mals')):
-            log, A, x0, g = new_world()
-            calls = []
-            scen = f'tt_solver={tts}, normalize={nz}'
-            thr, mr = sp.Symbol('thr', positive=True), sp.Symbol('maxrank', positive=True)
-            try:
-                sol = call(repo, f'{MOD}.{fname}', log, calls, A, x0, g, list(h), repeats=7, tt_solver=tts, threshold=thr, max_rank=mr, micro_solver='lu', normalize=nz, progress=False)
-            except Raised as r:
-                raise AnalysisError(f'{fname} raised {r} at {r.where}')
-            if not traj_checks(fname, sol, x0, [A, x0, g], 3, scen):
-                continue
-            I = alg.OpT({0: sp.Integer(1)}, log)
-            for i in range(3):
-                if fname == 'implicit_euler':
-                    op, rhs = I - h[i] * A, sol[i]
-                else:
-                    op, rhs = I - sp.Rational(1, 2) * h[i] * A, (I + sp.Rational(1, 2) * h[i] * A).dot(sol[i])
-                want = fin(alg.solve(op, rhs, log), nz)
-                ok = want.same(sol[i + 1])
-                run.oblige('D1', (fname, scen, i), ok, sample={'scheme': fname, 'scenario': scen, 'step': i, 'got': describe(sol[i + 1])[:200], 'verdict': 'held' if ok else 'VIOLATED'} if i == 1 and nz == 2 and tts == 'als' else None)
+            def _scenario(nz, tts):
+                log, A, x0, g = new_world()
+                calls = []
+                scen = f'tt_solver={tts}, normalize={nz}'
+                thr, mr = sp.Symbol('thr', positive=True), sp.Symbol('maxrank', positive=True)
+                try:
+                    sol = call(repo, f'{MOD}.{fname}', log, calls, A, x0, g, list(h), repeats=7, tt_solver=tts, threshold=thr, max_rank=mr, micro_solver='lu', normalize=nz, progress=False)
+                except Raised as r:
+                    raise AnalysisError(f'{fname} raised {r} at {r.where}')
+                if not traj_checks(fname, sol, x0, [A, x0, g], 3, scen):
+                    return
+                I = alg.OpT({0: sp.Integer(1)}, log)
+                for i in range(3):
+                    if fname == 'implicit_euler':
+                        op, rhs = I - h[i] * A, sol[i]
+                    else:
+                        op, rhs = I - sp.Rational(1, 2) * h[i] * A, (I + sp.Rational(1, 2) * h[i] * A).dot(sol[i])
+                    want = fin(alg.solve(op, rhs, log), nz)
+                    ok = want.same(sol[i + 1])
+                    run.oblige('D1', (fname, scen, i), ok, sample={'scheme': fname, 'scenario': scen, 'step': i, 'got': describe(sol[i + 1])[:200], 'verdict': 'held' if ok else 'VIOLATED'} if i == 1 and nz == 2 and tts == 'als' else None)
+                    if not ok:
+                        run.add(finding(fname, 'D1 recurrence', f'{scen}, step {i}: appended state is {describe(sol[i + 1])[:240]} but the scheme gives {describe(want)[:240]}'))
+                # D1b: inner solver options
+                ok = len(calls) == 3 and all(c[0] == tts for c in calls)
+                for c in calls:
+                    kw = c[4]
+                    ok = ok and kw.get('solver') == 'lu' and kw.get('repeats') == 7
+                    if c[0] == 'mals':
+                        ok = ok and kw.get('threshold') is thr and kw.get('max_rank') is mr
+                run.oblige('D1b', (fname, scen), ok)
                 if not ok:
-                    run.add(finding(fname, 'D1 recurrence', f'{scen}, step {i}: appended state is {describe(sol[i + 1])[:240]} but the scheme gives {describe(want)[:240]}'))
-            # D1b: inner solver options
-            ok = len(calls) == 3 and all(c[0] == tts for c in calls)
-            for c in calls:
-                kw = c[4]
-                ok = ok and kw.get('solver') == 'lu' and kw.get('repeats') == 7
-                if c[0] == 'mals':
-                    ok = ok and kw.get('threshold') is thr and kw.get('max_rank') is mr
-            run.oblige('D1b', (fname, scen), ok)
-            if not ok:
-                run.add(finding(fname, 'D1b inner solver', f'{scen}: inner solver calls {[(c[0], {k: str(v) for k, v in c[4].items()}) for c in calls]} do not carry the '
-                                f'requested solver/options (tt_solver={tts}, micro_solver=lu, repeats=7, threshold, max_rank)'))
-            # the guess of step i+1 is the previous solver result (warm start); the user's guess is used for step 0 only
-            okg = bool(calls) and calls[0][2] is g
-            run.oblige('D1b', (fname, scen, 'guess'), okg)
-            if not okg:
-                run.add(finding(fname, 'D1b initial guess', f'{scen}: the first inner solve does not start from the supplied initial guess'))
+                    run.add(finding(fname, 'D1b inner solver', f'{scen}: inner solver calls {[(c[0], {k: str(v) for k, v in c[4].items()}) for c in calls]} do not carry the '
+                                    f'requested solver/options (tt_solver={tts}, micro_solver=lu, repeats=7, threshold, max_rank)'))
+                # the guess of step i+1 is the previous solver result (warm start); the user's guess is used for step 0 only
+                okg = bool(calls) and calls[0][2] is g
+                run.oblige('D1b', (fname, scen, 'guess'), okg)
+                if not okg:
+                    run.add(finding(fname, 'D1b initial guess', f'{scen}: the first inner solve does not start from the supplied initial guess'))
+            all_paths(_scenario, nz, tts)
     # ---------------------------------------------------------------- HOD
     hh = sp.Symbol('h', positive=True)
     orders = (2, 3, 4, 6, 8) if tier == 'thorough' else (2, 4, 6)
     for order, nz, with_prev in itertools.product(orders, normals, (False, True)):
-        log, A, x0, g = new_world()
-        prev = alg.VecT.atom('xprev', log) if with_prev else None
-        calls = []
-        scen = f'order={order}, normalize={nz}, previous_value={"given" if with_prev else "None"}'
-        try:
-            sol = call(repo, f'{MOD}.hod', log, calls, A, x0, hh, 3, order=order, previous_value=prev, normalize=nz, progress=False)
-        except Raised as r:
-            raise AnalysisError(f'hod raised {r} at {r.where}')
-        inputs = [A, x0] + ([prev] if with_prev else [])
-        if not traj_checks('hod', sol, x0, inputs, 3, scen):
-            continue
-        eff = order + (order % 2)
-        I = alg.OpT({0: sp.Integer(1)}, log)
-        series = hod_series(A, hh, eff, log)
-        if with_prev:
-            xm1 = prev
-        else:
-            half = hod_series(A, hh / 2, eff, log)
-            xm1 = sol[0] - half.dot((I - sp.Rational(1, 2) * hh * A).dot(sol[0]))
-        xm1 = fin(xm1, nz)
-        states = [xm1] + list(sol)
-        for i in range(3):
-            want = fin(states[i] + series.dot(sol[i]), nz)
-            ok = want.same(sol[i + 1])
-            run.oblige('D1', ('hod', scen, i), ok, sample={'scheme': 'hod', 'scenario': scen, 'step': i, 'got': describe(sol[i + 1])[:260], 'verdict': 'held' if ok else 'VIOLATED'} if i == 1 and nz == 0 and order == 4 and with_prev else None)
-            if not ok:
-                run.add(finding('hod', 'D1 recurrence', f'{scen}, step {i}: appended state is {describe(sol[i + 1])[:260]} but x_(i-1) + sum_k 2h^(2k-1)/(2k-1)! A^(2k-1) x_i is {describe(want)[:260]}'))
+        def _scenario(order, nz, with_prev):
+            log, A, x0, g = new_world()
+            prev = alg.VecT.atom('xprev', log) if with_prev else None
+            calls = []
+            scen = f'order={order}, normalize={nz}, previous_value={"given" if with_prev else "None"}'
+            try:
+                sol = call(repo, f'{MOD}.hod', log, calls, A, x0, hh, 3, order=order, previous_value=prev, normalize=nz, progress=False)
+            except Raised as r:
+                raise AnalysisError(f'hod raised {r} at {r.where}')
+            inputs = [A, x0] + ([prev] if with_prev else [])
+            if not traj_checks('hod', sol, x0, inputs, 3, scen):
+                return
+            eff = order + (order % 2)
+            I = alg.OpT({0: sp.Integer(1)}, log)
+            series = hod_series(A, hh, eff, log)
+            if with_prev:
+                xm1 = prev
+            else:
+                half = hod_series(A, hh / 2, eff, log)
+                xm1 = sol[0] - half.dot((I - sp.Rational(1, 2) * hh * A).dot(sol[0]))
+            xm1 = fin(xm1, nz)
+            states = [xm1] + list(sol)
+            for i in range(3):
+                want = fin(states[i] + series.dot(sol[i]), nz)
+                ok = want.same(sol[i + 1])
+                run.oblige('D1', ('hod', scen, i), ok, sample={'scheme': 'hod', 'scenario': scen, 'step': i, 'got': describe(sol[i + 1])[:260], 'verdict': 'held' if ok else 'VIOLATED'} if i == 1 and nz == 0 and order == 4 and with_prev else None)
+                if not ok:
+                    run.add(finding('hod', 'D1 recurrence', f'{scen}, step {i}: appended state is {describe(sol[i + 1])[:260]} but x_(i-1) + sum_k 2h^(2k-1)/(2k-1)! A^(2k-1) x_i is {describe(want)[:260]}'))
+        all_paths(_scenario, order, nz, with_prev)
     # ---------------------------------------------------------------- estimators
     for fname, build in (('errors_expl_euler', lambda I, A, s, i: (s[i + 1] - (I + h[i] * A).dot(s[i]), s[i])),
                          ('errors_impl_euler', lambda I, A, s, i: ((I - h[i] * A).dot(s[i + 1]) - s[i], s[i])),
